@@ -41,10 +41,29 @@ def oracle(text):
     return None
 
 
+def long_roundtrip_failure(kind, text):
+    import sqlparse
+    try:
+        stmts = sqlparse.parse(text)
+    except Exception:  # noqa
+        return None
+    if ''.join(str(st) for st in stmts) != text:
+        return {'input': [ord(c) for c in text[:200]], 'long_input': {'kind': kind, 'length': len(text)},
+                'observed': 'long input (%s, %d characters): the statements of parse() do not concatenate to the input' % (kind, len(text))}
+    return None
+
+
 def run(ctx):
     texts, dist = common.gen_texts(ctx, ctx.n(2500, 40000))
     texts = common.corpus('parse') + texts
     res = {'disagreements': [], 'failures': []}
+    import gens as _gens
+    for kind, text, span in _gens.long_cases(ctx.quick()):
+        if kind in ('long-ws',):
+            continue                      # tens of thousands of whitespace tokens: the lexer-level checks cover it
+        f = long_roundtrip_failure(kind, text)
+        if f:
+            res['failures'].append(f)
     dis, dumps = common.corr_stage('parse', texts, impl.parse_dump, 'parse', extra='all ')
     res['disagreements'] += dis
     # stage-wise: tree after each pass on a sample
@@ -85,8 +104,16 @@ def search(ctx, hints):
 
 
 def shrink(f):
+    if f and f.get('long_input'):
+        return f
     return common.shrink_failure(f, oracle)
 
 
 def replay(payload):
+    f = payload.get('failure')
+    if f and f.get('long_input'):
+        lc = common.long_case_text(f)
+        if lc:
+            g = long_roundtrip_failure(lc[0], lc[1])
+            return {'fails': bool(g), 'observed': g}
     return common.replay_with(oracle, payload)
